@@ -128,8 +128,66 @@ func isForgedDecline(fr []byte) bool {
 	return false
 }
 
+// wireCheck: the reply's DHCP message read with offsets only (RFC 2131 figure 1), against the request payload it
+// answers: BOOTREPLY, Ethernet, hlen 6, hops / secs / flags / siaddr / giaddr zero, the request's xid and chaddr,
+// chaddr padding / sname / file zero, the magic cookie, well-formed options ending with the end option and zero
+// padding, at least 300 bytes, the subnet mask (when present) as the first option.  "" = fine.
+func wireCheck(req, rep []byte) string {
+	if len(rep) < 300 {
+		return fmt.Sprintf("%d bytes (BOOTP minimum is 300)", len(rep))
+	}
+	if len(req) < 240 {
+		return "reply to a request shorter than 240 bytes"
+	}
+	if rep[0] != 2 || rep[1] != 1 || rep[2] != 6 || rep[3] != 0 {
+		return fmt.Sprintf("op/htype/hlen/hops = % x, want 02 01 06 00", rep[0:4])
+	}
+	if !bytes.Equal(rep[4:8], req[4:8]) {
+		return fmt.Sprintf("xid %x, the request has %x", rep[4:8], req[4:8])
+	}
+	if !bytes.Equal(rep[28:34], req[28:34]) {
+		return fmt.Sprintf("chaddr %x, the request has %x", rep[28:34], req[28:34])
+	}
+	for i, b := range rep[:236] {
+		if b != 0 && (i >= 8 && i < 12 || i >= 20 && i < 28 || i >= 34) {
+			return fmt.Sprintf("byte %d = %#x (secs / flags / siaddr / giaddr / chaddr padding / sname / file must be zero)", i, b)
+		}
+	}
+	if !bytes.Equal(rep[236:240], []byte{99, 130, 83, 99}) {
+		return fmt.Sprintf("magic cookie % x", rep[236:240])
+	}
+	o := rep[240:]
+	first := true
+	for {
+		if len(o) == 0 {
+			return "no end option"
+		}
+		if o[0] == 255 {
+			o = o[1:]
+			break
+		}
+		if o[0] == 0 {
+			return "pad option inside the option area"
+		}
+		if len(o) < 2 || len(o) < 2+int(o[1]) {
+			return "option runs past the end of the message"
+		}
+		if o[0] == 1 && !first {
+			return "subnet mask is not the first option"
+		}
+		first = false
+		o = o[2+int(o[1]):]
+	}
+	for _, b := range o {
+		if b != 0 {
+			return "non-zero padding after the end option"
+		}
+	}
+	return ""
+}
+
 type rawStep struct {
-	dest    string // a reply that did not go where the request came from ("" = fine)
+	dest    string // a reply that did not go where the request came from, or whose bytes are malformed ("" = fine)
 	impl    string // canonical result of the event ("" = frame not dispatched to the handler)
 	pre     string
 	cfg     string
@@ -180,6 +238,9 @@ func runRawEv(w *c11.World, e rawEv) rawStep {
 		if r, ok := c11.DecodeReply(f); ok {
 			st.replies = append(st.replies, r)
 			raws = append(raws, core.Hex(r.Raw))
+			if bad := wireCheck(e.p, r.Raw); bad != "" {
+				st.dest = "reply bytes: " + bad
+			}
 			if len(st.replies) == 1 {
 				st.ord = core.Hex(r.Order)
 			}
@@ -311,7 +372,7 @@ func evalRaw(c *core.Ctx, f []string) *core.Case {
 				return "dhcp4.ProcessPacket: the call did not return normally (" + broken + ") on a raw payload", ""
 			}
 			if dest != "" {
-				return "dhcp4 reply destination: " + dest, ""
+				return "dhcp4 reply on the wire: " + dest, ""
 			}
 			return "", ""
 		}}
